@@ -15,6 +15,69 @@ Proof. unfold finished_in. rewrite existsb_app. intros ->. reflexivity. Qed.
 Lemma finished_in_app_r tr evs x : existsb (is_final_ev x) evs = true -> finished_in (tr ++ evs) x.
 Proof. unfold finished_in. rewrite existsb_app. intros ->. apply orb_true_r. Qed.
 
+(* at most one final report per task *)
+Definition is_fin (e : event) : bool :=
+  match e with ESuccess _ | ESkipUpToDate _ | ESkipIgnore _ | EFailure _ _ => true | _ => false end.
+Lemma is_final_is_fin x e : is_final_ev x e = true -> is_fin e = true.
+Proof. destruct e; simpl; auto. Qed.
+Lemma finished_in_snoc tr e x : finished_in (tr ++ [e]) x <-> finished_in tr x \/ is_final_ev x e = true.
+Proof. unfold finished_in. rewrite existsb_app. simpl. rewrite orb_false_r, orb_true_iff. reflexivity. Qed.
+
+Inductive fonce : list event -> Prop :=
+| fo1_nil : fonce []
+| fo1_snoc tr e : fonce tr -> (forall x, is_final_ev x e = true -> ~ finished_in tr x) -> fonce (tr ++ [e]).
+
+Lemma fonce_app evs : forall tr, fonce tr ->
+  (forall e x, In e evs -> is_final_ev x e = true -> ~ finished_in tr x) ->
+  (length (filter is_fin evs) <= 1)%nat -> fonce (tr ++ evs).
+Proof.
+  induction evs as [|e evs IH]; intros tr Hf Hn Hc.
+  - rewrite app_nil_r. exact Hf.
+  - replace (tr ++ e :: evs) with ((tr ++ [e]) ++ evs) by (rewrite <- app_assoc; reflexivity).
+    apply IH.
+    + constructor; auto. intros x Hx. apply (Hn e x); auto. left; reflexivity.
+    + intros e' x Hin Hx Hfin. apply finished_in_snoc in Hfin. destruct Hfin as [Hfin|Hfin].
+      * apply (Hn e' x); auto. right; exact Hin.
+      * apply is_final_is_fin in Hfin. simpl in Hc. rewrite Hfin in Hc. simpl in Hc.
+        assert (Hin' : In e' (filter is_fin evs)) by (apply filter_In; split; auto; eapply is_final_is_fin; eauto).
+        destruct (filter is_fin evs); [destruct Hin'|simpl in Hc; lia].
+    + simpl in Hc. destruct (is_fin e); simpl in Hc; lia.
+Qed.
+
+Lemma fonce_split tr : fonce tr ->
+  forall pre e post x, tr = pre ++ e :: post -> is_final_ev x e = true -> ~ finished_in pre x.
+Proof.
+  induction 1 as [|tr e0 Ho IH He]; intros pre e post x E Hx.
+  - destruct pre; discriminate.
+  - destruct post as [|p post'] using rev_ind.
+    + apply app_inj_tail in E. destruct E as [-> ->]. apply He. exact Hx.
+    + clear IHpost'. rewrite app_comm_cons, app_assoc in E. apply app_inj_tail in E. destruct E as [-> _].
+      eapply IH; eauto.
+Qed.
+
+(* the two-sided form: no other final report of the same task before or after *)
+Lemma fonce_unique tr : fonce tr ->
+  forall pre e post x, tr = pre ++ e :: post -> is_final_ev x e = true -> ~ finished_in pre x /\ ~ finished_in post x.
+Proof.
+  intros Hf pre e post x E Hx. split; [eapply fonce_split; eauto|].
+  intros Hp. apply existsb_exists in Hp. destruct Hp as (e' & Hin & Hx').
+  apply in_split in Hin. destruct Hin as (p1 & p2 & ->).
+  apply (fonce_split tr Hf (pre ++ e :: p1) e' p2 x); auto.
+  - rewrite E. rewrite <- app_assoc. reflexivity.
+  - unfold finished_in. rewrite existsb_app. simpl. rewrite Hx. rewrite orb_true_r. reflexivity.
+Qed.
+
+(* with one final report per task, a task that has some not-good final report has no good one *)
+Lemma fonce_two tr x e1 e2 : fonce tr -> In e1 tr -> In e2 tr ->
+  is_final_ev x e1 = true -> is_final_ev x e2 = true -> e1 = e2.
+Proof.
+  intros Hf H1 H2 F1 F2. apply in_split in H1. destruct H1 as (p1 & p2 & ->).
+  destruct (fonce_unique _ Hf p1 e1 p2 x eq_refl F1) as [A B].
+  apply in_app_iff in H2. destruct H2 as [H2|[H2|H2]]; auto.
+  - exfalso. apply A. apply existsb_exists. eauto.
+  - exfalso. apply B. apply existsb_exists. eauto.
+Qed.
+
 Section R.
 Variable tasks : name -> option task.
 Variable wake_rank : name -> name -> N.
@@ -122,14 +185,27 @@ Definition Static (d : dstate) : Prop :=
   forall z, incl (t_task_dep (get_task z)) (n_all_task (node_of d z)) /\
             incl (t_calc_dep (get_task z)) (n_all_calc (node_of d z)).
 
+(* a final report and the status the runner gives the task at that moment *)
+Definition ev_matches (e : event) (s : status) : bool :=
+  match e, s with
+  | ESuccess _, SSuccess | ESkipUpToDate _, SUpToDate | ESkipIgnore _, SIgnore => true
+  | EFailure _ _, SFailure | EFailure _ _, SFailureV => true
+  | _, _ => false end.
+
 Record RI (d : dstate) (tr : list event) : Prop := {
   ri_inv : Inv d;
   ri_res : AllRes d;
   ri_q : QInv d;
   ri_static : Static d;
   ri_link : forall x, final d x -> finished_in tr x;
-  ri_ord : ordered tr
+  ri_ord : ordered tr;
+  ri_link2 : forall x, finished_in tr x -> final d x;
+  ri_match : forall x e, In e tr -> is_final_ev x e = true -> ev_matches e (st_of d x) = true;
+  ri_once : fonce tr
 }.
+
+Lemma finished_in_In tr x : finished_in tr x <-> exists e, In e tr /\ is_final_ev x e = true.
+Proof. unfold finished_in. apply existsb_exists. Qed.
 
 Lemma Static_grows d d' : Static d -> all_grows tasks d d' -> Static d'.
 Proof.
@@ -139,37 +215,46 @@ Qed.
 
 Lemma RI_disp d d' tr y : RI d tr -> disp_post tasks d d' y -> RI d' tr.
 Proof.
-  intros [I A Q S L O] (I' & A' & Q' & St & G & _ & _). split; auto.
+  intros [I A Q S L O L2 M F1] (I' & A' & Q' & St & G & _ & _). split; auto.
   - eapply Static_grows; eauto.
   - intros x Hx. apply L. unfold DispatchInv.final in *. rewrite <- St. exact Hx.
+  - intros x Hx. unfold DispatchInv.final. rewrite St. apply L2. exact Hx.
+  - intros x e He Hf. rewrite St. apply M; auto.
 Qed.
 
-(* changing the status of a task that was already handed to the runner *)
+(* changing the status of a task that was already handed to the runner and is not finished yet *)
 Lemma set_status_RI d tr k s evs :
   RI d tr ->
-  early (n_pc (node_of d k)) = false ->
-  (unfinished s = true -> unfinished (st_of d k) = true) ->
+  early (n_pc (node_of d k)) = false -> in_setup (n_pc (node_of d k)) = false ->
+  unfinished (st_of d k) = true ->
   (unfinished s = false -> existsb (is_final_ev k) evs = true) ->
+  (forall e x, In e evs -> is_final_ev x e = true -> x = k /\ unfinished s = false /\ ev_matches e s = true) ->
   forallb (fun e => negb (is_exec e)) evs = true ->
+  (length (filter is_fin evs) <= 1)%nat ->
   RI (set_status d k s) (tr ++ evs).
 Proof.
-  intros [I A Q S L O] He Hun Hfin Hne. unfold Runner.set_status.
+  intros [I A Q S L O L2 M F1] He Hns Hun Hfin Hev Hne Hcnt. unfold Runner.set_status.
   set (nd := node_of d k). set (d' := set_node d k (nd_st nd s)).
   assert (Hst : forall x, st_of d' x = if N.eqb x k then s else st_of d x).
   { intro x. unfold d'. rewrite st_set_node. reflexivity. }
+  assert (Hk : forall x, final d x -> x <> k).
+  { intros x Hx ->. unfold DispatchInv.final in Hx. rewrite Hun in Hx. discriminate. }
   assert (Hm : mono tasks d d').
-  { intros x Hx. unfold DispatchInv.final in *. rewrite Hst. destruct (N.eqb_spec x k) as [->|]; auto.
-    destruct (unfinished s) eqn:E; auto. rewrite (Hun eq_refl) in Hx. discriminate. }
+  { intros x Hx. rewrite Hst. destruct (N.eqb_spec x k) as [->|]; auto. exfalso. apply (Hk k Hx). reflexivity. }
   assert (Hnode : forall z, z <> k -> node_of d' z = node_of d z)
     by (intros z Hz; unfold d'; apply node_of_set_other; auto).
   split.
   - intros z ndz Hz. unfold d' in Hz. destruct (N.eqb_spec z k) as [->|Hne'].
     + rewrite nodes_set_same in Hz. inversion Hz; subst.
-      destruct (node_of_ok tasks d k I) as [H1 H2 H3 H4 H5]. fold nd in H1, H2, H3, H4, H5.
+      destruct (node_of_ok tasks d k I) as [H1 H2 H3 H4 H5 H6]. fold nd in H1, H2, H3, H4, H5, H6.
       split; simpl; auto.
       * intros x Hx. destruct (H1 x Hx) as [H|[H|[H|H]]]; auto.
-      * intros E x Hx. destruct (H3 E x Hx); auto.
+        right; right; right. apply (recd_fields tasks d' nd); [reflexivity|reflexivity|].
+        eapply recd_mono; eauto.
+      * intros E x Hx. destruct (H3 E x Hx) as [H|H]; auto.
+        right. apply (recd_fields tasks d' nd); [reflexivity|reflexivity|]. eapply recd_mono; eauto.
       * fold nd in He. rewrite He. discriminate.
+      * fold nd in Hns. rewrite Hns. discriminate.
     + rewrite nodes_set_other in Hz by auto. eapply node_ok_mono; eauto.
   - intros z Hz. unfold resumable in *. destruct (N.eqb_spec z k) as [->|Hne'].
     + unfold d'. rewrite node_of_set_same. simpl. apply (A k). exact Hz.
@@ -184,14 +269,92 @@ Proof.
     + apply N.eqb_eq in E. subst x. apply finished_in_app_r. apply Hfin. exact Hx'.
     + apply finished_in_app. apply L. exact Hx'.
   - apply ordered_app_noexec; auto.
+  - intros x Hx. apply finished_in_In in Hx. destruct Hx as (e & Hin & Hf). apply in_app_iff in Hin.
+    destruct Hin as [Hin|Hin].
+    + eapply mono_final; [exact Hm|]. apply L2. apply finished_in_In. eauto.
+    + destruct (Hev e x Hin Hf) as (-> & Hs & _). unfold DispatchInv.final. rewrite Hst, N.eqb_refl. exact Hs.
+  - intros x e Hin Hf. apply in_app_iff in Hin. destruct Hin as [Hin|Hin].
+    + assert (Hx : final d x) by (apply L2; apply finished_in_In; eauto).
+      rewrite (Hm x Hx). apply M; auto.
+    + destruct (Hev e x Hin Hf) as (-> & _ & Hs). rewrite Hst, N.eqb_refl. exact Hs.
+  - apply fonce_app; auto. intros e x Hin Hf Hfin'. destruct (Hev e x Hin Hf) as (-> & _ & _).
+    apply L2 in Hfin'. unfold DispatchInv.final in Hfin'. rewrite Hun in Hfin'. discriminate.
 Qed.
 
 Lemma RI_emit d tr evs :
-  RI d tr -> forallb (fun e => negb (is_exec e)) evs = true -> RI d (tr ++ evs).
+  RI d tr -> forallb (fun e => negb (is_exec e)) evs = true ->
+  (forall e x, In e evs -> is_final_ev x e = false) -> RI d (tr ++ evs).
 Proof.
-  intros [I A Q S L O] Hn. split; auto.
+  intros [I A Q S L O L2 M F1] Hn Hnf. split; auto.
   - intros x Hx. apply finished_in_app. apply L. exact Hx.
   - apply ordered_app_noexec; auto.
+  - intros x Hx. apply finished_in_In in Hx. destruct Hx as (e & Hin & Hf). apply in_app_iff in Hin.
+    destruct Hin as [Hin|Hin]; [apply L2; apply finished_in_In; eauto|]. rewrite (Hnf e x Hin) in Hf. discriminate.
+  - intros x e Hin Hf. apply in_app_iff in Hin.
+    destruct Hin as [Hin|Hin]; [apply M; auto|]. rewrite (Hnf e x Hin) in Hf. discriminate.
+  - apply fonce_app; auto.
+    + intros e x Hin Hf. rewrite (Hnf e x Hin) in Hf. discriminate.
+    + assert (H0 : filter is_fin evs = []).
+      { clear -Hnf. induction evs as [|e evs IH]; simpl; auto.
+        destruct (is_fin e) eqn:E.
+        - exfalso. destruct e; simpl in E; try discriminate;
+            match goal with |- _ => idtac end;
+            [pose proof (Hnf (ESkipIgnore k) k (or_introl eq_refl)) as H|pose proof (Hnf (ESkipUpToDate k) k (or_introl eq_refl)) as H
+            |pose proof (Hnf (EFailure k kind) k (or_introl eq_refl)) as H|pose proof (Hnf (ESuccess k) k (or_introl eq_refl)) as H];
+            simpl in H; rewrite N.eqb_refl in H; discriminate.
+        - apply IH. intros e0 x H. apply Hnf. right; exact H. }
+      rewrite H0. simpl. lia.
+Qed.
+
+(* ---------- dependencies of an executed task ended well ---------- *)
+Definition is_goodst (s : status) : bool := match s with SSuccess | SUpToDate => true | _ => false end.
+Definition is_good_ev (e : event) : bool := match e with ESuccess _ | ESkipUpToDate _ => true | _ => false end.
+(* x was reported successful or up-to-date *)
+Definition good_in (tr : list event) (x : name) : Prop :=
+  exists e, In e tr /\ is_final_ev x e = true /\ is_good_ev e = true.
+Lemma good_in_app tr evs x : good_in tr x -> good_in (tr ++ evs) x.
+Proof. intros (e & A & B & C). exists e. split; auto. apply in_or_app. auto. Qed.
+
+Lemma RI_good d tr x : RI d tr -> is_goodst (st_of d x) = true -> good_in tr x.
+Proof.
+  intros HR Hg.
+  assert (F : final d x) by (unfold DispatchInv.final; destruct (st_of d x); simpl in *; auto; discriminate).
+  apply (ri_link _ _ HR) in F. apply finished_in_In in F. destruct F as (e & Hin & Hf).
+  exists e. split; auto. split; auto. pose proof (ri_match _ _ HR x e Hin Hf) as M.
+  destruct e, (st_of d x); simpl in *; auto; discriminate.
+Qed.
+
+Lemma recd_good d nd x : recd tasks d nd x -> n_bad nd = [] -> n_ign nd = [] -> is_goodst (st_of d x) = true.
+Proof.
+  intros (F & B & I) Hb Hi. unfold DispatchInv.final in F. rewrite Hb in B. rewrite Hi in I.
+  destruct (st_of d x) eqn:E; simpl in *; auto; try discriminate;
+    try (destruct (B eq_refl)); try (destruct (I eq_refl)).
+Qed.
+
+Inductive cordered : list event -> Prop :=
+| co_nil : cordered []
+| co_snoc tr e : cordered tr ->
+    (forall t, e = EExecute t -> forall x, In x (static_deps t) -> good_in tr x) ->
+    cordered (tr ++ [e]).
+
+Lemma cordered_app_noexec tr evs : cordered tr -> forallb (fun e => negb (is_exec e)) evs = true -> cordered (tr ++ evs).
+Proof.
+  revert tr. induction evs as [|e evs IH]; intros tr Ho Hn; simpl in *.
+  - rewrite app_nil_r. exact Ho.
+  - apply andb_true_iff in Hn. destruct Hn as [He Hn].
+    replace (tr ++ e :: evs) with ((tr ++ [e]) ++ evs) by (rewrite <- app_assoc; reflexivity).
+    apply IH; auto. constructor; auto. intros t ->. discriminate.
+Qed.
+
+Lemma cordered_split tr : cordered tr ->
+  forall pre t post, tr = pre ++ EExecute t :: post -> forall x, In x (static_deps t) -> good_in pre x.
+Proof.
+  induction 1 as [|tr e Ho IH He]; intros pre t post E x Hx.
+  - destruct pre; discriminate.
+  - destruct post as [|p post'] using rev_ind.
+    + apply app_inj_tail in E. destruct E as [-> ->]. eapply He; eauto.
+    + clear IHpost'. rewrite app_comm_cons, app_assoc in E. apply app_inj_tail in E. destruct E as [-> _].
+      eapply IH; eauto.
 Qed.
 
 Lemma set_status_pc d k s z : n_pc (node_of (set_status d k s) z) = n_pc (node_of d z).
@@ -211,8 +374,18 @@ Record handed (d : dstate) (k : name) : Prop := {
   h_setup : n_pc (node_of d k) = PDone -> setup_final tasks d k;
   h_pc : n_pc (node_of d k) = PAfterSelf \/ n_pc (node_of d k) = PDone;
   h_first : n_pc (node_of d k) = PAfterSelf -> st_of d k = SNone;
-  h_pre : PreX tasks d k
+  h_pre : PreX tasks d k;
+  h_rec : deps_recd tasks d k;
+  h_srec : n_pc (node_of d k) = PDone -> setup_recd tasks d k;
+  h_srun : n_pc (node_of d k) = PDone -> st_of d k = SRun
 }.
+
+Lemma handed_in_setup d k : handed d k -> in_setup (n_pc (node_of d k)) = false.
+Proof. intros H. destruct (h_pc _ _ H) as [E|E]; rewrite E; reflexivity. Qed.
+Lemma handed_unfinished d k : handed d k -> unfinished (st_of d k) = true.
+Proof.
+  intros H. destruct (h_pc _ _ H) as [E|E]; [rewrite (h_first _ _ H E)|rewrite (h_srun _ _ H E)]; reflexivity.
+Qed.
 
 Lemma handed_early d k : handed d k -> early (n_pc (node_of d k)) = false.
 Proof. intros H. destruct (h_pc _ _ H) as [E|E]; rewrite E; reflexivity. Qed.
@@ -238,18 +411,23 @@ Definition sel_post (d : dstate) (k : name) (b : bool) (r1 : rstate) : Prop :=
   RI (r_d r1) (r_tr r1) /\ Pre (r_d r1) /\ st_of (r_d r1) k <> SNone /\
   (forall z, n_pc (node_of (r_d r1) z) = n_pc (node_of d z)) /\
   d_cur (r_d r1) = d_cur d /\
-  (b = true -> forall x, In x (static_deps k) -> finished_in (r_tr r1) x).
+  (b = true -> forall x, In x (static_deps k) -> finished_in (r_tr r1) x) /\
+  (b = true -> st_of (r_d r1) k = SRun /\ n_bad (node_of d k) = [] /\ n_ign (node_of d k) = []) /\
+  (forall z, z <> k -> st_of (r_d r1) z = st_of d z).
 
 Lemma handle_error_gen_post st r k kind :
-  unfinished st = false -> st <> SNone ->
+  unfinished st = false -> is_failst st = true ->
   RI (r_d r) (r_tr r) -> early (n_pc (node_of (r_d r) k)) = false -> PreX tasks (r_d r) k ->
+  in_setup (n_pc (node_of (r_d r) k)) = false -> unfinished (st_of (r_d r) k) = true ->
   sel_post (r_d r) k false (handle_error_gen tasks continue_ st r k kind).
 Proof.
-  intros Hst Hsn HR He HPx. unfold Runner.handle_error_gen. simpl.
-  split; [|split; [|split; [|split; [|split]]]]; simpl.
+  intros Hst Hfs HR He HPx Hns Hun. unfold Runner.handle_error_gen. simpl.
+  assert (Hsn : st <> SNone) by (intros ->; discriminate).
+  split; [|split; [|split; [|split; [|split; [|split; [|split]]]]]]; simpl.
   - apply set_status_RI; auto.
-    + rewrite Hst. discriminate.
     + intros _. simpl. rewrite N.eqb_refl. reflexivity.
+    + intros e x [<-|[<-|[]]] Hf; simpl in Hf; [discriminate|]. apply N.eqb_eq in Hf. subst x.
+      split; [reflexivity|]. split; [exact Hst|]. destruct st; simpl in *; auto; discriminate.
   - eapply Pre_after; [exact HPx|intro z; apply set_status_pc| |].
     + intros z Hz. rewrite set_status_st. apply N.eqb_neq in Hz. rewrite Hz. reflexivity.
     + rewrite set_status_st, N.eqb_refl. exact Hsn.
@@ -257,24 +435,31 @@ Proof.
   - intro z. apply set_status_pc.
   - reflexivity.
   - discriminate.
+  - discriminate.
+  - intros z Hz. rewrite set_status_st. apply N.eqb_neq in Hz. rewrite Hz. reflexivity.
 Qed.
 
 Lemma handle_error_post r k kind :
   RI (r_d r) (r_tr r) -> early (n_pc (node_of (r_d r) k)) = false -> PreX tasks (r_d r) k ->
+  in_setup (n_pc (node_of (r_d r) k)) = false -> unfinished (st_of (r_d r) k) = true ->
   sel_post (r_d r) k false (handle_error r k kind).
-Proof. apply handle_error_gen_post; [reflexivity|discriminate]. Qed.
+Proof. apply handle_error_gen_post; reflexivity. Qed.
 
 Lemma skip_post r k s ev :
   RI (r_d r) (r_tr r) -> early (n_pc (node_of (r_d r) k)) = false -> PreX tasks (r_d r) k ->
+  in_setup (n_pc (node_of (r_d r) k)) = false -> unfinished (st_of (r_d r) k) = true ->
   unfinished s = false -> s <> SNone -> is_final_ev k ev = true -> is_exec ev = false ->
+  ev_matches ev s = true ->
   sel_post (r_d r) k false (emit (with_d r (set_status (r_d r) k s)) [ev]).
 Proof.
-  intros HR He HPx Hs Hn Hev Hex. unfold emit, with_d. simpl.
-  split; [|split; [|split; [|split; [|split]]]]; simpl.
+  intros HR He HPx Hns Hun Hs Hn Hev Hex Hmt. unfold emit, with_d. simpl.
+  split; [|split; [|split; [|split; [|split; [|split; [|split]]]]]]; simpl.
   - apply set_status_RI; auto.
-    + rewrite Hs. discriminate.
     + intros _. simpl. rewrite Hev. reflexivity.
+    + intros e x [<-|[]] Hf. split; auto.
+      destruct ev; simpl in Hf, Hev; try discriminate; apply N.eqb_eq in Hf; apply N.eqb_eq in Hev; congruence.
     + simpl. rewrite Hex. reflexivity.
+    + simpl. destruct (is_fin ev); simpl; lia.
   - eapply Pre_after; [exact HPx|intro z; apply set_status_pc| |].
     + intros z Hz. rewrite set_status_st. apply N.eqb_neq in Hz. rewrite Hz. reflexivity.
     + rewrite set_status_st, N.eqb_refl. exact Hn.
@@ -282,6 +467,8 @@ Proof.
   - intro z. apply set_status_pc.
   - reflexivity.
   - discriminate.
+  - discriminate.
+  - intros z Hz. rewrite set_status_st. apply N.eqb_neq in Hz. rewrite Hz. reflexivity.
 Qed.
 
 Lemma PreX_set_status d k s : PreX tasks d k -> PreX tasks (set_status d k s) k.
@@ -293,18 +480,26 @@ Qed.
 (* get_args after the status is known *)
 Lemma get_args_post r k b r1 (d0 : dstate) :
   RI (r_d r) (r_tr r) -> early (n_pc (node_of (r_d r) k)) = false -> PreX tasks (r_d r) k ->
-  st_of (r_d r) k <> SNone ->
+  in_setup (n_pc (node_of (r_d r) k)) = false ->
+  st_of (r_d r) k = SRun -> n_bad (node_of d0 k) = [] -> n_ign (node_of d0 k) = [] ->
   (forall z, n_pc (node_of (r_d r) z) = n_pc (node_of d0 z)) -> d_cur (r_d r) = d_cur d0 ->
+  (forall z, z <> k -> st_of (r_d r) z = st_of d0 z) ->
   (forall x, In x (static_deps k) -> finished_in (r_tr r) x) ->
   get_args tasks continue_ r k = (b, r1) -> sel_post d0 k b r1.
 Proof.
-  intros HR He HPx Hst Hpc Hcur Hdeps Hg. unfold Runner.get_args in Hg.
+  intros HR He HPx Hns Hst Hb Hi Hpc Hcur Hoth Hdeps Hg. unfold Runner.get_args in Hg.
+  assert (Hsn : st_of (r_d r) k <> SNone) by (rewrite Hst; discriminate).
   destruct (t_argerr (get_task k)); inversion Hg; subst.
-  - destruct (handle_error_post r k kind_dep HR He HPx) as (A & B & C & D & E & F).
-    split; auto. split; auto. split; auto. split; [intro z; rewrite D; apply Hpc|]. split; [congruence|exact F].
-  - split; auto. split; [|split; [exact Hst|split; [exact Hpc|split; [exact Hcur|intros _; exact Hdeps]]]].
-    intros z Hz. destruct (N.eqb_spec z k) as [->|Hne]; [exact Hst|]. apply HPx; auto.
+  - destruct (handle_error_post r k kind_dep HR He HPx Hns) as (A & B & C & D & E & F & G & H).
+    { rewrite Hst. reflexivity. }
+    split; auto. split; auto. split; auto. split; [intro z; rewrite D; apply Hpc|]. split; [congruence|].
+    split; [exact F|]. split; [discriminate|]. intros z Hz. rewrite (H z Hz). apply Hoth. exact Hz.
+  - split; auto. split; [|split; [exact Hsn|split; [exact Hpc|split; [exact Hcur|split; [intros _; exact Hdeps|split; [auto|exact Hoth]]]]]].
+    intros z Hz. destruct (N.eqb_spec z k) as [->|Hne]; [exact Hsn|]. apply HPx; auto.
 Qed.
+
+Lemma emit_RI_get r k : RI (r_d r) (r_tr r) -> RI (r_d (emit r [EGetStatus k])) (r_tr (emit r [EGetStatus k])).
+Proof. intros H. unfold emit; simpl. apply RI_emit; auto. intros e x [<-|[]]. reflexivity. Qed.
 
 Lemma select_task_post r k b r1 :
   RI (r_d r) (r_tr r) -> handed (r_d r) k ->
@@ -313,8 +508,8 @@ Proof.
   intros HR HK Hs. unfold Runner.select_task in Hs.
   set (d := r_d r) in *.
   pose proof (handed_early _ _ HK) as He. pose proof (h_pre _ _ HK) as HPx.
-  assert (HRe : RI (r_d (emit r [EGetStatus k])) (r_tr (emit r [EGetStatus k])))
-    by (unfold emit; simpl; apply RI_emit; auto).
+  pose proof (handed_in_setup _ _ HK) as Hns. pose proof (handed_unfinished _ _ HK) as Hun.
+  assert (HRe : RI (r_d (emit r [EGetStatus k])) (r_tr (emit r [EGetStatus k]))) by (apply emit_RI_get; exact HR).
   (* dependencies that were declared, as seen in the trace so far *)
   assert (Hdeps12 : forall x, In x (t_task_dep (get_task k) ++ t_calc_dep (get_task k)) -> finished_in (r_tr r) x).
   { intros x Hx. apply (ri_link _ _ HR). eapply handed_static_final; eauto. apply (ri_static _ _ HR). }
@@ -326,23 +521,30 @@ Proof.
   { intros Hst Hq.
     assert (Hpd : n_pc (node_of d k) = PDone).
     { destruct (h_pc _ _ HK) as [E|E]; auto. exfalso. apply Hst. apply (h_first _ _ HK E). }
-    destruct (negb (is_nil (n_ign (node_of d k)))).
-    { inversion Hq; subst. apply (skip_post r k SIgnore (ESkipIgnore k)); auto; try discriminate.
-      simpl. apply N.eqb_refl. }
-    destruct (negb (is_nil (n_bad (node_of d k)))).
-    { inversion Hq; subst. apply (handle_error_post r k kind_unmet); auto. }
+    destruct (is_nil (n_ign (node_of d k))) eqn:Ei; simpl in Hq.
+    2:{ inversion Hq; subst. apply (skip_post r k SIgnore (ESkipIgnore k)); auto; try discriminate.
+        simpl. apply N.eqb_refl. }
+    destruct (is_nil (n_bad (node_of d k))) eqn:Eb; simpl in Hq.
+    2:{ inversion Hq; subst. apply (handle_error_post r k kind_unmet); auto. }
+    apply is_nil_true in Ei. apply is_nil_true in Eb.
     apply (get_args_post r k b r1 d); auto.
-    intros x Hx. unfold static_deps in Hx. rewrite app_assoc in Hx. apply in_app_iff in Hx. destruct Hx as [Hx|Hx].
-    - apply Hdeps12. exact Hx.
-    - apply (ri_link _ _ HR). apply (h_setup _ _ HK Hpd). exact Hx. }
+    - apply (h_srun _ _ HK Hpd).
+    - intros x Hx. unfold static_deps in Hx. rewrite app_assoc in Hx. apply in_app_iff in Hx. destruct Hx as [Hx|Hx].
+      + apply Hdeps12. exact Hx.
+      + apply (ri_link _ _ HR). apply (h_setup _ _ HK Hpd). exact Hx. }
   destruct (n_st (node_of d k)) eqn:Est.
   - (* first selection *)
-    destruct (negb (is_nil (n_ign (node_of d k))) || t_dbignore (get_task k)).
+    destruct (is_nil (n_ign (node_of d k))) eqn:Ei; simpl in Hs.
+    2:{ inversion Hs; subst.
+        apply (skip_post (emit r [EGetStatus k]) k SIgnore (ESkipIgnore k)); auto; try discriminate.
+        simpl. apply N.eqb_refl. }
+    destruct (t_dbignore (get_task k)) eqn:Edb; simpl in Hs.
     { inversion Hs; subst.
       apply (skip_post (emit r [EGetStatus k]) k SIgnore (ESkipIgnore k)); auto; try discriminate.
       simpl. apply N.eqb_refl. }
-    destruct (negb (is_nil (n_bad (node_of d k)))).
-    { inversion Hs; subst. apply (handle_error_post (emit r [EGetStatus k]) k kind_unmet); auto. }
+    destruct (is_nil (n_bad (node_of d k))) eqn:Eb; simpl in Hs.
+    2:{ inversion Hs; subst. apply (handle_error_post (emit r [EGetStatus k]) k kind_unmet); auto. }
+    apply is_nil_true in Ei. apply is_nil_true in Eb.
     assert (Hrun :
        (if is_nil (t_setup (get_task k))
         then get_args tasks continue_ (with_d (emit r [EGetStatus k]) (set_status (r_d (emit r [EGetStatus k])) k SRun)) k
@@ -353,20 +555,24 @@ Proof.
       assert (HR2 : RI (r_d r2) (r_tr r2)).
       { unfold r2, with_d, emit. simpl.
         rewrite <- (app_nil_r (r_tr r ++ [EGetStatus k])).
-        apply set_status_RI; [exact HRe|exact He| |discriminate|reflexivity].
-        intros _. unfold Dispatch.st_of. fold d. rewrite Est. reflexivity. }
+        apply set_status_RI; [exact HRe|exact He|exact Hns|exact Hun|discriminate|intros e x []|reflexivity|simpl; lia]. }
       assert (Hpc2 : forall z, n_pc (node_of (r_d r2) z) = n_pc (node_of d z))
         by (intro z; unfold r2, with_d, emit; simpl; apply set_status_pc).
-      assert (Hst2 : st_of (r_d r2) k <> SNone)
-        by (unfold r2, with_d, emit; simpl; rewrite set_status_st, N.eqb_refl; discriminate).
+      assert (Hst2 : st_of (r_d r2) k = SRun)
+        by (unfold r2, with_d, emit; simpl; rewrite set_status_st, N.eqb_refl; reflexivity).
+      assert (Hoth2 : forall z, z <> k -> st_of (r_d r2) z = st_of d z).
+      { intros z Hz. unfold r2, with_d, emit; simpl. rewrite set_status_st. apply N.eqb_neq in Hz. rewrite Hz. reflexivity. }
       assert (HPx2 : PreX tasks (r_d r2) k) by (unfold r2, with_d, emit; simpl; apply PreX_set_status; exact HPx).
       destruct (is_nil (t_setup (get_task k))) eqn:Esetup.
       - apply (get_args_post r2 k b r1 d); auto.
         + rewrite Hpc2. exact He.
+        + rewrite Hpc2. exact Hns.
         + intros x Hx. unfold static_deps in Hx. apply is_nil_true in Esetup. rewrite Esetup, app_nil_r in Hx.
           unfold r2, with_d, emit. simpl. apply finished_in_app. apply Hdeps12. exact Hx.
-      - inversion Hq; subst. split; auto. split; [|split; [exact Hst2|split; [exact Hpc2|split; [reflexivity|discriminate]]]].
-        intros z Hz. destruct (N.eqb_spec z k) as [->|Hne]; [exact Hst2|]. apply HPx2; auto. }
+      - inversion Hq; subst. split; auto.
+        assert (Hsn2 : st_of (r_d r2) k <> SNone) by (rewrite Hst2; discriminate).
+        split; [|split; [exact Hsn2|split; [exact Hpc2|split; [reflexivity|split; [discriminate|split; [discriminate|exact Hoth2]]]]]].
+        intros z Hz. destruct (N.eqb_spec z k) as [->|Hne]; [exact Hsn2|]. apply HPx2; auto. }
     destruct (t_check (get_task k)) eqn:Eck.
     + destruct always; apply Hrun; exact Hs.
     + destruct always; [apply Hrun; exact Hs|]. inversion Hs; subst.
@@ -399,6 +605,27 @@ Proof.
   right. split; auto. eapply select_first_true; [|exact E]. apply (h_first _ _ HK Hp).
 Qed.
 
+
+(* a task is started only if everything it depends on was reported successful or up-to-date *)
+Lemma select_true_good r k r1 :
+  RI (r_d r) (r_tr r) -> handed (r_d r) k -> select_task r k = (true, r1) ->
+  forall x, In x (static_deps k) -> good_in (r_tr r1) x.
+Proof.
+  intros HR HK E x Hx.
+  destruct (select_task_post r k true r1 HR HK E) as (R1 & _ & _ & Pc & _ & _ & T1 & O1).
+  destruct (T1 eq_refl) as (Srun & Hb & Hi).
+  assert (Hg : is_goodst (st_of (r_d r) x) = true).
+  { unfold static_deps in Hx. rewrite app_assoc in Hx. apply in_app_iff in Hx. destruct Hx as [Hx|Hx].
+    - eapply recd_good; eauto. apply (h_rec _ _ HK). destruct (ri_static _ _ HR k) as [A B].
+      rewrite in_app_iff in *. destruct Hx as [Hx|Hx]; [left; apply A|right; apply B]; exact Hx.
+    - destruct (h_pc _ _ HK) as [Hp|Hp].
+      + pose proof (select_first_true r k r1 (h_first _ _ HK Hp) E) as Hn. apply is_nil_true in Hn.
+        rewrite Hn in Hx. destruct Hx.
+      + eapply recd_good; eauto. apply (h_srec _ _ HK Hp). exact Hx. }
+  apply (RI_good (r_d r1)); auto. rewrite O1; auto.
+  intros ->. pose proof (handed_unfinished _ _ HK) as Hu. destruct (st_of (r_d r) k); simpl in *; discriminate.
+Qed.
+
 (* ---------- no task is executed twice ---------- *)
 Record XI (d : dstate) (tr : list event) : Prop := {
   xi_spent : forall k, In k (execs tr) -> spent tasks d k;
@@ -413,30 +640,35 @@ Lemma start_task_RI r k :
   RI (r_d r) (r_tr r) -> (forall x, In x (static_deps k) -> finished_in (r_tr r) x) ->
   RI (r_d (start_task r k)) (r_tr (start_task r k)).
 Proof.
-  intros [I A Q S L O] Hd. unfold Runner.start_task. simpl. split; auto.
+  intros [I A Q S L O L2 M F1] Hd. unfold Runner.start_task. simpl. split; auto.
   - intros x Hx. apply finished_in_app. apply L. exact Hx.
   - constructor; auto. intros t E x Hx. inversion E; subst. apply Hd. exact Hx.
+  - intros x Hx. apply finished_in_In in Hx. destruct Hx as (e & Hin & Hf). apply in_app_iff in Hin.
+    destruct Hin as [Hin|[<-|[]]]; [apply L2; apply finished_in_In; eauto|discriminate].
+  - intros x e Hin Hf. apply in_app_iff in Hin. destruct Hin as [Hin|[<-|[]]]; [apply M; auto|discriminate].
+  - constructor; auto. intros x Hx. discriminate.
 Qed.
 
 Lemma process_result_post r k :
   RI (r_d r) (r_tr r) -> early (n_pc (node_of (r_d r) k)) = false -> PreX tasks (r_d r) k ->
+  in_setup (n_pc (node_of (r_d r) k)) = false -> st_of (r_d r) k = SRun ->
   let r' := process_result r k in
   RI (r_d r') (r_tr r') /\ Pre (r_d r') /\ st_of (r_d r') k <> SNone \/ t_outcome (get_task k) = OInterrupt.
 Proof.
-  intros HR He HPx. cbv zeta. unfold Runner.process_result.
+  intros HR He HPx Hns Hst. cbv zeta. unfold Runner.process_result.
+  assert (Hun : unfinished (st_of (r_d r) k) = true) by (rewrite Hst; reflexivity).
   destruct (t_outcome (get_task k)) eqn:Eo; [| | | |right; reflexivity|]; left.
-  - destruct (skip_post r k SSuccess (ESuccess k) HR He HPx) as (A & B & C & _); try discriminate; try reflexivity.
+  - destruct (skip_post r k SSuccess (ESuccess k) HR He HPx Hns Hun) as (A & B & C & _); try discriminate; try reflexivity.
     + simpl. apply N.eqb_refl.
     + (* the trace carries ESave too *)
       unfold emit, with_d in *. simpl in *. split; [|split; auto].
-      destruct A as [a1 a2 a3 a4 a5 a6].
-      assert (HRI : RI (set_status (r_d r) k SSuccess) (r_tr r ++ [ESave k; ESuccess k])).
-      { apply set_status_RI; auto; try discriminate. intros _. simpl. rewrite N.eqb_refl. reflexivity. }
-      exact HRI.
-  - destruct (handle_error_post r k kind_failed HR He HPx) as (A & B & C & _). auto.
-  - destruct (handle_error_post r k kind_error HR He HPx) as (A & B & C & _). auto.
-  - destruct (handle_error_gen_post SFailureV r k kind_dep eq_refl ltac:(discriminate) HR He HPx) as (A & B & C & _). auto.
-  - destruct (handle_error_gen_post SFailureV r k kind_failed eq_refl ltac:(discriminate) HR He HPx) as (A & B & C & _). auto.
+      apply set_status_RI; auto; try discriminate.
+      * intros _. simpl. rewrite N.eqb_refl. reflexivity.
+      * intros e x [<-|[<-|[]]] Hf; simpl in Hf; [discriminate|]. apply N.eqb_eq in Hf. subst x. auto.
+  - destruct (handle_error_post r k kind_failed HR He HPx Hns Hun) as (A & B & C & _). auto.
+  - destruct (handle_error_post r k kind_error HR He HPx Hns Hun) as (A & B & C & _). auto.
+  - destruct (handle_error_gen_post SFailureV r k kind_dep eq_refl eq_refl HR He HPx Hns Hun) as (A & B & C & _). auto.
+  - destruct (handle_error_gen_post SFailureV r k kind_failed eq_refl eq_refl HR He HPx Hns Hun) as (A & B & C & _). auto.
 Qed.
 
 Lemma noexec_teardowns l : forallb (fun e => negb (is_exec e)) (map ETeardown l) = true.
@@ -449,7 +681,7 @@ Qed.
 
 Lemma handed_of_post d d' k : disp_post tasks d d' (DTask k) -> handed d' k /\ d_cur d' = Some k /\ ~ spent tasks d k.
 Proof.
-  intros (_ & _ & _ & _ & _ & _ & N & C & D1 & D2 & D3 & D4 & D5). split; [split; auto|auto].
+  intros (_ & _ & _ & _ & _ & _ & N & C & D1 & D2 & D3 & D4 & D5 & D6 & D7 & D8). split; [split; auto|auto].
 Qed.
 
 Lemma process_result_pc r k z :
@@ -484,16 +716,36 @@ Proof.
   intros e k [<-|Hin]; [reflexivity|]. apply in_map_iff in Hin. destruct Hin as [y [<- _]]. reflexivity.
 Qed.
 
-Lemma serial_inv fuel : forall r last,
-  RI (r_d r) (r_tr r) -> XI (r_d r) (r_tr r) -> fordered (r_tr r) -> Pre (r_d r) ->
-  (forall k, last = Some k -> st_of (r_d r) k <> SNone) ->
-  let r' := fst (serial fuel r last) in ordered (r_tr r') /\ NoDup (execs (r_tr r')) /\ fordered (r_tr r').
+Lemma finish_RI r : RI (r_d r) (r_tr r) -> RI (r_d (finish r)) (r_tr (finish r)).
 Proof.
-  induction fuel as [|fuel IH]; intros r last HR HX HF HP Hl; cbn [Runner.serial]; cbv zeta.
-  { simpl. split; [apply (ri_ord _ _ HR)|split; [apply (xi_nodup _ _ HX)|exact HF]]. }
-  assert (Hfin : forall r0, RI (r_d r0) (r_tr r0) -> XI (r_d r0) (r_tr r0) -> fordered (r_tr r0) ->
-                 ordered (r_tr (finish r0)) /\ NoDup (execs (r_tr (finish r0))) /\ fordered (r_tr (finish r0))).
-  { intros r0 R0 X0 F0. split; [apply finish_ordered; apply (ri_ord _ _ R0)|split; [rewrite finish_execs; apply (xi_nodup _ _ X0)|apply finish_fordered; exact F0]]. }
+  intros H. unfold finish, emit. simpl. apply RI_emit; auto.
+  - simpl. apply noexec_teardowns.
+  - intros e x [<-|Hin]; [reflexivity|]. apply in_map_iff in Hin. destruct Hin as (z & <- & _). reflexivity.
+Qed.
+
+Lemma about_noexec k evs : Forall (about k) evs -> forallb (fun e => negb (is_exec e)) evs = true.
+Proof.
+  induction 1 as [|e l He _ IHl]; simpl; auto. rewrite IHl, andb_true_r.
+  destruct e; simpl in *; auto; contradiction.
+Qed.
+
+Definition trace_ok (tr : list event) : Prop :=
+  ordered tr /\ NoDup (execs tr) /\ fordered tr /\ fonce tr /\ cordered tr.
+
+Lemma serial_inv fuel : forall r last,
+  RI (r_d r) (r_tr r) -> XI (r_d r) (r_tr r) -> fordered (r_tr r) -> cordered (r_tr r) -> Pre (r_d r) ->
+  (forall k, last = Some k -> st_of (r_d r) k <> SNone) ->
+  let r' := fst (serial fuel r last) in trace_ok (r_tr r').
+Proof.
+  unfold trace_ok.
+  induction fuel as [|fuel IH]; intros r last HR HX HF HC HP Hl; cbn [Runner.serial]; cbv zeta.
+  { simpl. split; [apply (ri_ord _ _ HR)|split; [apply (xi_nodup _ _ HX)|split; [exact HF|split; [apply (ri_once _ _ HR)|exact HC]]]]. }
+  assert (Hfin : forall r0, RI (r_d r0) (r_tr r0) -> XI (r_d r0) (r_tr r0) -> fordered (r_tr r0) -> cordered (r_tr r0) ->
+                 ordered (r_tr (finish r0)) /\ NoDup (execs (r_tr (finish r0))) /\ fordered (r_tr (finish r0)) /\
+                 fonce (r_tr (finish r0)) /\ cordered (r_tr (finish r0))).
+  { intros r0 R0 X0 F0 C0. split; [apply finish_ordered; apply (ri_ord _ _ R0)|split; [rewrite finish_execs; apply (xi_nodup _ _ X0)|split; [apply finish_fordered; exact F0|split]]].
+    - apply (ri_once _ _ (finish_RI _ R0)).
+    - unfold finish, emit. simpl. apply cordered_app_noexec; auto. simpl. apply noexec_teardowns. }
   destruct (r_stop r). { cbn [fst]. apply Hfin; auto. }
   destruct (disp_send tasks wake_rank calc_rank (S fuel) (r_d r) last) as [y d] eqn:Ed.
   pose proof (disp_send_spec tasks wake_rank calc_rank _ _ _ _ _ (ri_inv _ _ HR) HP (ri_res _ _ HR) (ri_q _ _ HR) Hl Ed) as Hpost.
@@ -503,7 +755,7 @@ Proof.
   destruct y as [k| | |path|].
   - destruct (handed_of_post _ _ _ Hpost) as (HK & Hcur & Hns).
     destruct (select_task (with_d r d) k) as [b r1] eqn:Es.
-    pose proof (select_task_post (with_d r d) k b r1 HR' HK Es) as (R1 & P1 & S1 & Pc1 & C1 & D1).
+    pose proof (select_task_post (with_d r d) k b r1 HR' HK Es) as (R1 & P1 & S1 & Pc1 & C1 & D1 & T1 & O1).
     pose proof (select_task_execs tasks continue_ always _ _ _ _ Es) as Ex1. simpl in Ex1.
     assert (X1 : XI (r_d r1) (r_tr r1)).
     { destruct HX' as [xa xb]. split; rewrite Ex1; auto. intros z Hz. eapply spent_pc; [apply Pc1|]. apply xa. exact Hz. }
@@ -512,8 +764,14 @@ Proof.
     assert (F1 : fordered (r_tr r1)).
     { destruct (select_task_about tasks continue_ always _ _ _ _ Es) as [evs [Eq Ha]]. simpl in Eq. rewrite Eq.
       eapply fordered_app_about; eauto. }
+    assert (C1' : cordered (r_tr r1)).
+    { destruct (select_task_about tasks continue_ always _ _ _ _ Es) as [evs [Eq Ha]]. simpl in Eq. rewrite Eq.
+      apply cordered_app_noexec; auto. eapply about_noexec; eauto. }
     destruct b.
     + assert (R2 : RI (r_d (start_task r1 k)) (r_tr (start_task r1 k))) by (apply start_task_RI; auto).
+      assert (C2 : cordered (r_tr (start_task r1 k))).
+      { unfold Runner.start_task. simpl. constructor; auto. intros t Et x Hx. inversion Et; subst.
+        apply (select_true_good (with_d r d) t r1 HR' HK Es x Hx). }
       assert (F2 : fordered (r_tr (start_task r1 k))).
       { unfold Runner.start_task. simpl. apply fordered_app_nofinal; auto. intros e k0 [<-|[]]. reflexivity. }
       assert (Hk : ~ In k (execs (r_tr r))) by (intro H; apply Hns; apply (xi_spent _ _ HX); exact H).
@@ -528,7 +786,10 @@ Proof.
         { unfold Runner.start_task. simpl. rewrite Pc1. apply (handed_early _ _ HK). }
         assert (HPx2 : PreX tasks (r_d (start_task r1 k)) k).
         { unfold Runner.start_task. simpl. intros z Hz Hpc. apply P1. exact Hpc. }
-        destruct (process_result_post (start_task r1 k) k R2 He2 HPx2) as [(R3 & P3 & S3)|Hint].
+        assert (Hns2 : in_setup (n_pc (node_of (r_d (start_task r1 k)) k)) = false).
+        { unfold Runner.start_task. simpl. rewrite Pc1. apply (handed_in_setup _ _ HK). }
+        assert (Hst2 : st_of (r_d (start_task r1 k)) k = SRun) by (unfold Runner.start_task; simpl; apply (T1 eq_refl)).
+        destruct (process_result_post (start_task r1 k) k R2 He2 HPx2 Hns2 Hst2) as [(R3 & P3 & S3)|Hint].
         -- apply IH; auto.
            ++ destruct X2 as [xa xb]. split; rewrite process_result_execs; auto.
               intros z Hz. eapply spent_pc; [apply process_result_pc|]. apply xa. exact Hz.
@@ -536,13 +797,15 @@ Proof.
               eapply fordered_app_about; eauto. intros x Hx. unfold Runner.start_task. simpl.
               apply finished_in_app. apply D1; auto. unfold static_deps. unfold deps12 in Hx.
               rewrite app_assoc. apply in_app_iff. left. exact Hx.
+           ++ destruct (process_result_about (start_task r1 k) k) as [evs [Eq Ha]]. rewrite Eq.
+              apply cordered_app_noexec; auto. eapply about_noexec; eauto.
            ++ intros k' E. inversion E; subst. exact S3.
         -- unfold Runner.is_interrupt in Ei. rewrite Hint in Ei. discriminate.
     + apply IH; auto. intros k' E. inversion E; subst. exact S1.
   - cbn [fst]. apply Hfin; auto.
   - cbn [fst]. apply Hfin; auto.
   - cbn [fst]. apply Hfin; auto.
-  - cbn [fst]. split; [apply (ri_ord _ _ HR')|split; [apply (xi_nodup _ _ HX')|exact HF]].
+  - cbn [fst]. split; [apply (ri_ord _ _ HR')|split; [apply (xi_nodup _ _ HX')|split; [exact HF|split; [apply (ri_once _ _ HR')|exact HC]]]].
 Qed.
 
 Lemma RI_init sel : RI (disp_init sel) [].
@@ -558,17 +821,21 @@ Proof.
   - intro z. split; apply incl_refl.
   - intros x Hx. unfold DispatchInv.final in Hx. simpl in Hx. discriminate.
   - constructor.
+  - intros x Hx. discriminate.
+  - intros x e [].
+  - constructor.
 Qed.
 
 Lemma XI_init sel : XI (disp_init sel) [].
 Proof. split; simpl; [intros k []|constructor]. Qed.
 
 Lemma serial_init_inv fuel sel :
-  let r' := fst (serial fuel (r_init sel) None) in ordered (r_tr r') /\ NoDup (execs (r_tr r')) /\ fordered (r_tr r').
+  let r' := fst (serial fuel (r_init sel) None) in trace_ok (r_tr r').
 Proof.
   apply serial_inv; simpl.
   - apply RI_init.
   - apply XI_init.
+  - constructor.
   - constructor.
   - intros z Hz. simpl in Hz. discriminate.
   - intros k E'. discriminate.
@@ -578,7 +845,7 @@ Theorem serial_dep_order fuel sel :
   ordered (fst (run_serial tasks wake_rank calc_rank continue_ always fuel sel)).
 Proof.
   unfold run_serial.
-  pose proof (serial_init_inv fuel sel) as H. cbv zeta in H.
+  pose proof (serial_init_inv fuel sel) as H. cbv zeta in H. unfold trace_ok in H.
   destruct (serial fuel (r_init sel) None) as [r s] eqn:E. simpl in *.
   apply ordered_app_noexec; [apply H|destruct s; reflexivity].
 Qed.
@@ -588,7 +855,7 @@ Theorem serial_exec_once fuel sel :
   NoDup (execs (fst (run_serial tasks wake_rank calc_rank continue_ always fuel sel))).
 Proof.
   unfold run_serial.
-  pose proof (serial_init_inv fuel sel) as H. cbv zeta in H.
+  pose proof (serial_init_inv fuel sel) as H. cbv zeta in H. unfold trace_ok in H.
   destruct (serial fuel (r_init sel) None) as [r s] eqn:E. simpl in *.
   rewrite execs_app. replace (execs (stop_marker s)) with (@nil name) by (destruct s; reflexivity).
   rewrite app_nil_r. apply H.
@@ -598,10 +865,53 @@ Theorem serial_final_order fuel sel :
   fordered (fst (run_serial tasks wake_rank calc_rank continue_ always fuel sel)).
 Proof.
   unfold run_serial.
-  pose proof (serial_init_inv fuel sel) as H. cbv zeta in H.
+  pose proof (serial_init_inv fuel sel) as H. cbv zeta in H. unfold trace_ok in H.
   destruct (serial fuel (r_init sel) None) as [r s] eqn:E. simpl in *.
   apply fordered_app_nofinal; [apply H|]. intros e k Hin. destruct s; simpl in Hin; try contradiction;
     destruct Hin as [<-|[]]; reflexivity.
 Qed.
 
+(* every task gets at most one final report in a run *)
+Theorem serial_one_final fuel sel :
+  fonce (fst (run_serial tasks wake_rank calc_rank continue_ always fuel sel)).
+Proof.
+  unfold run_serial.
+  pose proof (serial_init_inv fuel sel) as H. cbv zeta in H. unfold trace_ok in H.
+  destruct (serial fuel (r_init sel) None) as [r s] eqn:E. simpl in *.
+  apply fonce_app; [apply H| |].
+  - intros e x Hin Hf. destruct s; simpl in Hin; try contradiction; destruct Hin as [<-|[]]; discriminate.
+  - destruct s; simpl; lia.
+Qed.
+
+(* a task is executed only after everything it declares as task_dep / calc_dep / setup was
+   reported successful or up-to-date (failure containment) *)
+Theorem serial_contained fuel sel :
+  cordered (fst (run_serial tasks wake_rank calc_rank continue_ always fuel sel)).
+Proof.
+  unfold run_serial.
+  pose proof (serial_init_inv fuel sel) as H. cbv zeta in H. unfold trace_ok in H.
+  destruct (serial fuel (r_init sel) None) as [r s] eqn:E. simpl in *.
+  apply cordered_app_noexec; [apply H|destruct s; reflexivity].
+Qed.
+
+(* a task with a dependency that failed, was ignored -- anything but successful / up-to-date -- is
+   never executed *)
+Lemma bad_dep_never_runs tr t x e :
+  fonce tr -> cordered tr -> In x (static_deps t) ->
+  In e tr -> is_final_ev x e = true -> is_good_ev e = false -> ~ In (EExecute t) tr.
+Proof.
+  intros Hf Hc Hx He Hfe Hbad Hex. apply in_split in Hex. destruct Hex as (pre & post & E).
+  destruct (cordered_split tr Hc pre t post E x Hx) as (e' & Hin' & Hf' & Hg').
+  assert (Hin2 : In e' tr) by (rewrite E; apply in_or_app; left; exact Hin').
+  pose proof (fonce_two tr x e e' Hf He Hin2 Hfe Hf') as ->. rewrite Hg' in Hbad. discriminate.
+Qed.
+
+Theorem serial_bad_dep_never_runs fuel sel t x e :
+  let tr := fst (run_serial tasks wake_rank calc_rank continue_ always fuel sel) in
+  In x (static_deps t) -> In e tr -> is_final_ev x e = true -> is_good_ev e = false -> ~ In (EExecute t) tr.
+Proof.
+  cbv zeta. intros. eapply bad_dep_never_runs; eauto; [apply serial_one_final|apply serial_contained].
+Qed.
+
 End R.
+
